@@ -42,7 +42,7 @@ def cases(draw, rot=0):
     return {
         'lines': lines, 'fault': fault, 'defs': defs, 'compress': draw(st.booleans()), 'hexoff': hexoff,
         'o': draw(st.sampled_from(['default', 'out.bin', 'build/fw.bin'])), 'l': draw(st.sampled_from([None, 'labels.txt', 'build/fw.labels'])),
-        'incfile': draw(st.booleans()), 'old': draw(st.booleans()), 'tags': prog.tags,
+        'incfile': draw(st.booleans()), 'old': draw(st.booleans()), 'tags': prog.tags, 'verbose': draw(st.integers(0, 3)) == 0,
     }
 
 
@@ -83,6 +83,8 @@ def judge(c, res):
             argv = ['--hex-offset', c['hexoff']] + argv
         if c['defs']:
             argv = ['--include-definitions'] + argv
+        if c.get('verbose'):
+            argv = ['-v'] + argv
         p = subprocess.run(CLI + argv, cwd=work, env=env.repo_python_env(), stdout=subprocess.PIPE, stderr=subprocess.PIPE, timeout=120)
         after = snapshot(work)
         # reference: the API on the same input (what the bytes mean is C03-C11's business)
@@ -168,7 +170,7 @@ def shard(n, s):
 def run(tier):
     chk = env.Check(PROP, tier)
     chk.rule = ('Hypothesis: generated programs (valid, or with one planted fault of the C15 classes so that failures come from every pass), '
-                'optionally with an include from a -i directory and --include-definitions, x option combinations (-c, -o default/'
+                'optionally with an include from a -i directory and --include-definitions, x option combinations (-c, -v, -o default/'
                 'file/subdir, -l, --hex-offset legal 0..0xfff00000 or malformed), run as a SUBPROCESS of the real entry point in a scratch '
                 'directory that (in half the cases) already holds older -o, -l and .hex files. success: exit 0, -o bytes == assemble(), -l '
                 'parses to exactly the label table, .hex parsed by an own Intel HEX reader == bytes at the offset; failure: exit != 0 and the '
